@@ -151,6 +151,10 @@ def line_specs(tier):
                             for an in (ANGLENOT if has_angle else ['']):
                                 out.append({'shape': shape, 'frame': frame, 'framecase': fcase, 'coordnot': c, 'sizenot': s,
                                             'anglenot': an, 'latneg': latneg})
+                                if latneg and s == SKY_SIZENOT[0] and an in ('', ANGLENOT[0]):
+                                    # |latitude| < 1 degree: -0:23:28.04, -0d23m28.04s, -0.391123
+                                    out.append({'shape': shape, 'frame': frame, 'framecase': fcase, 'coordnot': c, 'sizenot': s,
+                                                'anglenot': an, 'latneg': True, 'latzero': True})
     # (2) syntax axes x props
     frames2 = ['image', 'fk5'] if tier == 'quick' else FRAMES
     proplist = list(range(len(PROPS))) if tier == 'quick' else [0, 3, 4]
@@ -206,6 +210,8 @@ TOKENS = {
         ('composite', [{'shape': 'circle', 'xy': (60.0, 60.0), 'sizes': [4.0], 'angle': None, 'color': 'cyan', 'width': 5}]),
     '# a comment line': ('comment', None),
     '': ('blank', None),
+    # an empty label followed, on the same physical line in ';' programs, by other labels
+    'circle(12,22,4) # text={}': ('region', {'shape': 'circle', 'xy': (12.0, 22.0), 'sizes': [4.0], 'angle': None}),
     'vector(1,2,3,4)': ('skip', None),
     'foobar(1,2)': ('skip', None),
 }
